@@ -32,6 +32,23 @@ def mir_send_tx(cfg):
     return q
 
 
+def mir_ok_only_verified(cfg):
+    """The RPC returns Ok (transaction accepted / cycles reported) only on a path through the Ok edge of verify_tx: no early success return."""
+    import mirpaths
+    q = mirpaths.Query(cfg)
+    oks = cfg.find_blocks(r'_0 = (std::result::)?Result::<[^\n]*>::Ok\(')
+    if not oks:
+        raise mirpaths.MirError('no success return (`_0 = Result::Ok(..)`) found in %s' % cfg.name)
+    q.witness(oks, 'success return reachable')
+    v = cfg.find_calls(r'(^|::)verify_tx$', required=False)
+    if not v:
+        q.failures.append('%s returns Ok without ever calling verify_tx' % cfg.name.strip()); q.paths.append({'what': 'no verify_tx call', 'blocks': [], 'bfs_confirmed': True}); return q
+    q.must_pass(oks, [cfg.result_edges(x)['ok'] for x in v], 'the RPC returns Ok (transaction accepted) on a path that does not pass the Ok edge of verify_tx: a transaction that was not verified is reported as admitted')
+    for x in v:
+        q.must_not_reach(cfg.result_edges(x)['err'][1], oks, 'the RPC returns Ok after verify_tx failed')
+    return q
+
+
 def obligations():
     return [
         KModelOb('O18.1-pool', 'pending', 'pool_q', 'PendingTxs (real text): the pool never exceeds its limit, the oldest is evicted first, a re-push refreshes, '
@@ -44,6 +61,10 @@ def obligations():
         KModelOb('O18.3-resubmission', 'pending', 'resubmission', 'PendingTxs (real text): a transaction that was already announced to a peer and is submitted AGAIN (send_transaction does '
                  'not de-duplicate) is not announced to that peer a second time', ex_pending, 'arbitrary pool (limit 1..3, 4 identities, 2 peers), re-push of a member, one announce', cuts=CUTS,
                  timeout=1200, mem_gb=10, min_covers=1, weight=3),
+        MirOb('O18.2-ok-only-verified', 'TransactionRpcImpl::send_transaction returns Ok only through the Ok edge of verify_tx (no early success return, e.g. for a hash that is already pending: the hash does not cover the witnesses)',
+              r'service\.rs:\d+:\d+: \d+:\d+>::send_transaction\(', mir_ok_only_verified, src_rel=SERVICE),
+        MirOb('O18.2-estimate-only-verified', 'ChainRpcImpl::estimate_cycles returns Ok only through the Ok edge of verify_tx',
+              r'service\.rs:\d+:\d+: \d+:\d+>::estimate_cycles\(', mir_ok_only_verified, src_rel=SERVICE),
         MirOb('O18.2-verify-gate', 'TransactionRpcImpl::send_transaction: PendingTxs::push only on the Ok edge of verify_tx',
               r'service\.rs:\d+:\d+: \d+:\d+>::send_transaction\(', mir_send_tx, src_rel=SERVICE),
     ]
